@@ -17,6 +17,7 @@
 package main
 
 import (
+	"errors"
 	"archive/tar"
 	"archive/zip"
 	"bytes"
@@ -400,6 +401,7 @@ func (c *ctx) execExtract(ws []string) (string, *violation) {
 	inside := strings.TrimPrefix(realDest, c.root+"/")
 	line := strings.Join(ws, " ")
 	var err error
+	var fdv *violation
 	var before map[string]string
 	if ws[0] == "unzip" {
 		clearS, _ := kvGet(ws, "clear")
@@ -409,7 +411,7 @@ func (c *ctx) execExtract(ws []string) (string, *violation) {
 		}
 		before = snapshot(c.root)
 		c.j.Risky(line)
-		err = ziputil.UnzipDir(realDest, zr, clearS == "1")
+		err, fdv = c.guarded(ws, "UnzipDir", func() error { return ziputil.UnzipDir(realDest, zr, clearS == "1") })
 	} else {
 		bs, berr := buildTar(es)
 		if berr != nil {
@@ -417,10 +419,13 @@ func (c *ctx) execExtract(ws []string) (string, *violation) {
 		}
 		before = snapshot(c.root)
 		c.j.Risky(line)
-		err = dock.VerifWriteTarToDir(bytes.NewReader(bs), realDest)
+		err, fdv = c.guarded(ws, "writeTarToDir", func() error { return dock.VerifWriteTarToDir(bytes.NewReader(bs), realDest) })
 	}
 	after := snapshot(c.root)
 	out := status(err) + " tree=" + showSnap(after)
+	if fdv != nil {
+		return out, fdv
+	}
 	if bad := outside(before, after, inside); len(bad) > 0 {
 		what := "UnzipDir"
 		if ws[0] == "untar" {
@@ -433,6 +438,99 @@ func (c *ctx) execExtract(ws []string) (string, *violation) {
 }
 
 func treeOf(m map[string]string) string { return showSnap(m) }
+
+// openFDs counts the descriptors of this process (-1 when /proc is not there).
+func openFDs() int {
+	es, err := os.ReadDir("/proc/self/fd")
+	if err != nil {
+		return -1
+	}
+	return len(es)
+}
+
+// guarded runs one extraction (or producer) call f with the descriptor oracle:
+// with nofile=<n> in the op the soft RLIMIT_NOFILE is lowered to n around the
+// call, so that an extractor that keeps one descriptor per entry open until it
+// returns runs out of them; and the number of open descriptors after the call
+// must be what it was before.
+func (c *ctx) guarded(ws []string, what string, f func() error) (error, *violation) {
+	var old syscall.Rlimit
+	lowered := false
+	if nf, ok := kvGet(ws, "nofile"); ok {
+		n, err := strconv.ParseUint(nf, 10, 32)
+		if err == nil && syscall.Getrlimit(syscall.RLIMIT_NOFILE, &old) == nil && n <= old.Max {
+			lim := syscall.Rlimit{Cur: n, Max: old.Max}
+			lowered = syscall.Setrlimit(syscall.RLIMIT_NOFILE, &lim) == nil
+		}
+		if !lowered {
+			c.rep.Count("nofile-limit-not-set")
+		}
+	}
+	before := openFDs()
+	err := f()
+	after := openFDs()
+	if lowered {
+		syscall.Setrlimit(syscall.RLIMIT_NOFILE, &old)
+	}
+	switch {
+	case err != nil && (errors.Is(err, syscall.EMFILE) || errors.Is(err, syscall.ENFILE)):
+		return err, &violation{"extraction-leaks-or-hoards-descriptors",
+			what + " ran out of file descriptors (" + err.Error() + "): it keeps descriptors open in proportion to the number of entries"}
+	case before >= 0 && after != before:
+		return err, &violation{"extraction-leaks-or-hoards-descriptors",
+			fmt.Sprintf("%s returned with %d open file descriptors, %d were open before the call", what, after, before)}
+	}
+	return err, nil
+}
+
+// withDirSpelling runs f with the source directory spelled in one of the ways a
+// caller may name it (the working directory is changed for the relative ones
+// and restored afterwards).
+func (c *ctx) withDirSpelling(spell, src string, f func(arg string) error) error {
+	cwd, err := os.Getwd()
+	if err != nil {
+		return f(src)
+	}
+	defer os.Chdir(cwd)
+	parent, base := filepath.Dir(src), filepath.Base(src)
+	arg := src
+	switch spell {
+	case "", "abs":
+	case "absslash":
+		arg = src + "/"
+	case "absdot":
+		arg = src + "/."
+	case "dot":
+		os.Chdir(src)
+		arg = "."
+	case "dotslash":
+		os.Chdir(src)
+		arg = "./"
+	case "updown":
+		os.Chdir(src)
+		arg = "../" + base
+	case "rel":
+		os.Chdir(parent)
+		arg = base
+	case "dotrel":
+		os.Chdir(parent)
+		arg = "./" + base
+	case "relslash":
+		os.Chdir(parent)
+		arg = base + "/"
+	case "reldot":
+		os.Chdir(parent)
+		arg = base + "/."
+	case "dotdotrel":
+		os.Chdir(parent)
+		arg = base + "/../" + base
+	default:
+		return fmt.Errorf("unknown spelling %q", spell)
+	}
+	return f(arg)
+}
+
+var dirSpellings = []string{"abs", "absslash", "absdot", "dot", "dotslash", "updown", "rel", "dotrel", "relslash", "reldot", "dotdotrel"}
 
 func (c *ctx) execRoundTrip(ws []string) (string, *violation) {
 	dirHex, ok1 := kvGet(ws, "dir")
@@ -466,8 +564,9 @@ func (c *ctx) execRoundTrip(ws []string) (string, *violation) {
 	}
 	var buf bytes.Buffer
 	c.j.Risky(strings.Join(ws, " "))
-	if err := ziputil.ZipDir(src, &buf); err != nil {
-		return "zip-error", &violation{"roundtrip-zipdir-error", "ZipDir failed on a tree of regular files and directories: " + err.Error()}
+	spell, _ := kvGet(ws, "spell")
+	if err := c.withDirSpelling(spell, src, func(arg string) error { return ziputil.ZipDir(arg, &buf) }); err != nil {
+		return "zip-error", &violation{"roundtrip-zipdir-error", "ZipDir (directory spelled " + spell + ") failed on a tree of regular files and directories: " + err.Error()}
 	}
 	zr, err := zip.NewReader(bytes.NewReader(buf.Bytes()), int64(buf.Len()))
 	if err != nil && err != zip.ErrInsecurePath {
@@ -521,7 +620,8 @@ func (c *ctx) execRoundTripFile(ws []string) (string, *violation) {
 	}
 	var buf bytes.Buffer
 	c.j.Risky(strings.Join(ws, " "))
-	if err := ziputil.ZipFile(p, &buf); err != nil {
+	spell, _ := kvGet(ws, "spell")
+	if err := c.withDirSpelling(spell, p, func(arg string) error { return ziputil.ZipFile(strings.TrimSuffix(strings.TrimSuffix(arg, "/."), "/"), &buf) }); err != nil {
 		return "zip-error", &violation{"roundtrip-zipfile-error", "ZipFile failed: " + err.Error()}
 	}
 	zr, err := zip.NewReader(bytes.NewReader(buf.Bytes()), int64(buf.Len()))
@@ -1054,6 +1154,85 @@ func (g *gen) roundTripOps(n int) {
 	}
 }
 
+// twins: dot-prefixed names next to their undotted twins; a producer that derives
+// entry names by trimming the directory spelling confuses them for ZipDir(".").
+var twinPool = []string{".hidden", "hidden", "..data", ".data", "data", ".config", "config", ".", "a", ".a", "..a", "...", "...."}
+
+func (g *gen) twinTree() []ent {
+	out := []ent{{[]byte("."), "d", g.dirPerm(), nil}}
+	var rec func(prefix string, depth int)
+	rec = func(prefix string, depth int) {
+		names := map[string]bool{}
+		for i := 0; i < 3+g.r.Intn(5); i++ {
+			nm := hx.Pick(g.r, twinPool)
+			if nm != "." {
+				names[nm] = true
+			}
+		}
+		var ord []string
+		for k := range names {
+			ord = append(ord, k)
+		}
+		sort.Strings(ord)
+		for _, nm := range ord {
+			p := nm
+			if prefix != "" {
+				p = prefix + "/" + nm
+			}
+			if depth < 2 && g.r.Intn(4) == 0 {
+				out = append(out, ent{[]byte(p), "d", g.dirPerm(), nil})
+				rec(p, depth+1)
+			} else {
+				out = append(out, ent{[]byte(p), "f", 0o400 | g.r.Intn(0o400), []byte(nm)})
+			}
+		}
+	}
+	rec("", 0)
+	return out
+}
+
+// spellingOps: ZipDir/ZipFile called with every spelling of the directory.
+func (g *gen) spellingOps(rounds int) {
+	d := hx.Hex([]byte(absDest))
+	for i := 0; i < rounds; i++ {
+		t := g.twinTree()
+		if i%3 == 2 {
+			t = g.tree()
+		}
+		for _, sp := range dirSpellings {
+			g.add(fmt.Sprintf("rt dir=%s tree=%s spell=%s", d, fmtEnts(t), sp), true)
+			g.rep.Count("op:roundtrip-dir-spelling:" + sp)
+		}
+		base := hx.Pick(g.r, twinPool[:len(twinPool)-1])
+		if base == "." {
+			base = ".hidden"
+		}
+		for _, sp := range []string{"abs", "rel", "dotrel"} {
+			g.add(fmt.Sprintf("rtfile dir=%s base=%s perm=%d content=%s spell=%s", d, hx.Hex([]byte(base)), 0o400|g.r.Intn(0o400), hx.Hex(g.content()), sp), true)
+			g.rep.Count("op:roundtrip-file-spelling:" + sp)
+		}
+	}
+}
+
+// manyFilesOps: archives with more entries than the lowered descriptor limit.
+func (g *gen) manyFilesOps(files int) {
+	d := hx.Hex([]byte(absDest))
+	tree := []ent{{[]byte("."), "d", 0o755, nil}}
+	var zs, ts []ent
+	for i := 0; i < files; i++ {
+		nm := fmt.Sprintf("f%03d", i)
+		c := []byte{byte(i), byte(i >> 8)}
+		tree = append(tree, ent{[]byte(nm), "f", 0o644, c})
+		zs = append(zs, ent{[]byte(nm), "f", 0o644, c})
+		ts = append(ts, ent{[]byte(nm), "r", 0o644, c})
+	}
+	sort.Slice(tree[1:], func(a, b int) bool { return string(tree[1+a].name) < string(tree[1+b].name) })
+	g.add(fmt.Sprintf("rt dir=%s tree=%s nofile=64", d, fmtEnts(tree)), true)
+	g.add(fmt.Sprintf("unzip dir=%s clear=0 pre=- ents=%s nofile=64", d, fmtEnts(zs)), true)
+	g.add(fmt.Sprintf("untar dir=%s pre=- ents=%s nofile=64", d, fmtEnts(ts)), true)
+	g.rep.Count("op:many-files-under-low-nofile")
+}
+
 func (g *gen) tarZipOps(n int) {
 	dirs := []string{"", "app", "app/sub", ".", "app/", "./app//x/.."}
 	for i := 0; i < n; i++ {
@@ -1206,6 +1385,8 @@ func main() {
 		g.extractOps(nx)
 		g.symlinkOps(nx / 10)
 		g.roundTripOps(nrt)
+		g.spellingOps(nrt / 25)
+		g.manyFilesOps(200)
 		g.tarZipOps(ntz)
 		ops = append(ops, g.ops...)
 		rep.Distribution["small_scope"] = fmt.Sprintf("every name of <= %d segments over {a,..,.,empty} x {leading slash} x {trailing slash}, "+
